@@ -160,7 +160,9 @@ type store struct {
 	close      closer
 	// writeLock serialises everything that writes BOTH stores (Put, Delete, Batch and the cache fill of a read miss):
 	// interleaved, two writers - or a writer and a cache fill - leave the cache with another value than the main store.
-	writeLock sync.Mutex
+	// Reads that go to the main store only (Query, GetBulk, a GetTags miss) take it as readers: between the two halves
+	// of a write the main store is ahead of the cache, and a reader that saw it would contradict the next cache hit.
+	writeLock sync.RWMutex
 }
 
 func (s *store) Put(key string, value []byte, tags ...spi.Tag) error {
@@ -235,6 +237,9 @@ func (s *store) GetTags(key string) ([]spi.Tag, error) {
 		return nil, fmt.Errorf("unexpected failure while getting tags from the cache store: %w", err)
 	}
 
+	s.writeLock.RLock()
+	defer s.writeLock.RUnlock()
+
 	tags, err = s.mainStore.GetTags(key)
 	if err != nil {
 		return nil, fmt.Errorf("failed to get tags from the main store: %w", err)
@@ -246,6 +251,9 @@ func (s *store) GetTags(key string) ([]spi.Tag, error) {
 // TODO (#2476): Add caching support to this method by having it trying to fetch as many values as possible from
 //  the cache provider, and only resort to the main provider for thos values that aren't found.
 func (s *store) GetBulk(keys ...string) ([][]byte, error) {
+	s.writeLock.RLock()
+	defer s.writeLock.RUnlock()
+
 	values, err := s.mainStore.GetBulk(keys...)
 	if err != nil {
 		return nil, fmt.Errorf("failed to get values from the main store: %w", err)
@@ -256,6 +264,9 @@ func (s *store) GetBulk(keys ...string) ([][]byte, error) {
 
 // Can't use the cache store here since it might be missing data that's in the main store.
 func (s *store) Query(expression string, options ...spi.QueryOption) (spi.Iterator, error) {
+	s.writeLock.RLock()
+	defer s.writeLock.RUnlock()
+
 	iterator, err := s.mainStore.Query(expression, options...)
 	if err != nil {
 		return nil, fmt.Errorf("failed to query the main store: %w", err)
